@@ -55,6 +55,9 @@ struct Ctx {
     int shard = 0, nshards = 1;
     long resume_after = -1, only = -1;
     double deadline = 0;       // epoch seconds, 0 = none
+    double phase_slice = 0;    // seconds each phase may use before the explorer moves on to the next phase (0 = no slicing); used by the sanitised replays so that
+                               // a short deadline is spread over ALL phases (each explored smallest-first for its slice) instead of being spent on the first ones
+    double phase_t0 = 0; bool phase_cut = false;
     int case_limit_s = 20;     // per-case CPU horizon
     FILE *out = stdout;
     Progress *prog = nullptr;
@@ -112,6 +115,7 @@ struct Ctx {
             else if (a == "--resume-after") resume_after = atol(val().c_str());
             else if (a == "--only") only = atol(val().c_str());
             else if (a == "--deadline") deadline = atof(val().c_str());
+            else if (a == "--phase-slice") phase_slice = atof(val().c_str());
             else if (a == "--case-limit") case_limit_s = atoi(val().c_str());
             else if (a == "--seed") seed = atol(val().c_str());
             else if (a == "--out") { std::string p = val(); out = fopen(p.c_str(), "a"); if (!out) { perror("out"); exit(3); } }
@@ -133,12 +137,13 @@ struct Ctx {
     bool phase_on = true;   // development aid: --phases <substring> executes only the phases whose name contains it
     void phase(const std::string &name) {
         end_phase(); phase_on = !opt.count("phases") || name.find(opt["phases"]) != std::string::npos;
-        phase_ = name; phase_first = idx + 1; phase_exec = 0;
+        phase_ = name; phase_first = idx + 1; phase_exec = 0; phase_cut = false;
+        if (phase_slice > 0) { struct timeval tv; gettimeofday(&tv, nullptr); phase_t0 = tv.tv_sec + tv.tv_usec * 1e-6; }
         strncpy(prog->phase, name.c_str(), sizeof(prog->phase) - 1);
     }
     void end_phase() {
         if (phase_.empty()) return;
-        phases_done.push_back({phase_, PhaseInfo{phase_first, idx + 1 - phase_first, phase_exec, !stopped_}});
+        phases_done.push_back({phase_, PhaseInfo{phase_first, idx + 1 - phase_first, phase_exec, !stopped_ && !phase_cut}});
         phase_.clear();
     }
     bool stopped() {
@@ -156,6 +161,7 @@ struct Ctx {
         if (alarm_on) { alarm(0); alarm_on = false; } armed_len = 0;   // (no system call for the cases of other shards)
         if (stopped()) return false;
         idx++;
+        if (phase_slice > 0 && only < 0) { if (phase_cut) return false; if ((idx & 15) == 0) { struct timeval tv; gettimeofday(&tv, nullptr); if (tv.tv_sec + tv.tv_usec * 1e-6 > phase_t0 + phase_slice) { phase_cut = true; cnt["phase_slices_used_up"]++; return false; } } }
         bool mine;
         if (only >= 0) mine = (idx == only);
         else mine = (idx % nshards == shard) && idx > resume_after && phase_on;
